@@ -1,5 +1,6 @@
 import Model.Pass.Opt
 import Proofs.Lemmas.PyInt
+import Proofs.Lemmas.Alias
 /-!
 # C04 — optimize() and its passes preserve observable behaviour
 
@@ -100,5 +101,46 @@ theorem fold_tables_consistent :
 
 example : sortsArgs .and = true := by decide
 example : sortsArgs .sub = false := by decide
+
+/-! ### alias elimination on whole netlists, for every run
+
+`_remove_wire_nets`, `_remove_slice_nets` and each round of `common_subexp_elimination` remove a set of nets and let every
+reader of a removed destination read a replacement wire instead (`Model/Pass/Alias.lean`).  A certificate (removed nets,
+replacement map) is *justified* (`Alias.certOk`, decidable) when every removed net is a `w` net or an all-bits-in-order
+select of equal width, or has the same op and arguments — two arguments of a commutative op possibly swapped — and the
+same destination width as a kept net.  On every run the correspondence check derives the certificate from the real
+pass's input and output, has the driver evaluate `schedsOkB` and compares `Alias.applyCert` with the real output. -/
+open Alias in
+/-- **a justified alias elimination preserves every Output (and every other kept wire) in every cycle of every run**,
+    from any initial state whose run shows only in-range values (C01: every reported value lies in [0, 2^bitwidth)),
+    under the scheduler's dependency orders of both netlists. -/
+theorem alias_elimination_run_eq (b : Block) (c : Cert) (h : schedsOkB b c = true) (st : State) (inps : List Env)
+    (hrange : RangeRun b (Dco.orderOf b) st inps) :
+    Dco.AgreeOn (fun x => b.kind x = .output)
+      (run (applyCert b c) (Dco.orderOf (applyCert b c)) st inps) (run b (Dco.orderOf b) st inps) ∧
+    Dco.AgreeOn (fun x => ¬ RemovedDest c x)
+      (run (applyCert b c) (Dco.orderOf (applyCert b c)) st inps) (run b (Dco.orderOf b) st inps) := by
+  obtain ⟨hs, hout⟩ := schedsOkB_sound b c h
+  have hrun := alias_run b c _ _ hs inps st hrange
+  exact ⟨Dco.AgreeOn.mono _ _ hout _ _ hrun, hrun⟩
+
+/-- the architectural state after every cycle is equal as well -/
+theorem alias_elimination_state_eq (b : Block) (c : Alias.Cert) (h : Alias.schedsOkB b c = true) (st : State) (inp : Env)
+    (hrange : ∀ a, evalNets b st (Dco.orderOf b) (baseEnv b st inp) a < 2 ^ b.width a) :
+    (step (Alias.applyCert b c) (Dco.orderOf (Alias.applyCert b c)) st inp).2 = (step b (Dco.orderOf b) st inp).2 :=
+  (Alias.alias_step b c _ _ (Alias.schedsOkB_sound b c h).1 st inp hrange).2
+
+/-- non-vacuity: `t = a + c; y = t (w net); u = c + a; o1 = y; o2 = u` — the `w` net goes (readers of `y` read `t`) and
+    the swapped addition is merged into the first -/
+def exAlias : Block :=
+  { wires := #[⟨"a", 3, .input⟩, ⟨"c", 3, .input⟩, ⟨"t", 4, .plain⟩, ⟨"y", 4, .plain⟩, ⟨"u", 4, .plain⟩,
+               ⟨"o1", 4, .output⟩, ⟨"o2", 4, .output⟩]
+    nets := [⟨.add, [0, 1], [2]⟩, ⟨.w, [2], [3]⟩, ⟨.add, [1, 0], [4]⟩, ⟨.w, [3], [5]⟩, ⟨.w, [4], [6]⟩]
+    mems := [] }
+
+def exCert : Alias.Cert := { removed := [⟨.w, [2], [3]⟩, ⟨.add, [1, 0], [4]⟩], sigma := [(3, 2), (4, 2)] }
+
+example : Alias.schedsOkB exAlias exCert = true ∧
+    (Alias.applyCert exAlias exCert).nets = [⟨.add, [0, 1], [2]⟩, ⟨.w, [2], [5]⟩, ⟨.w, [2], [6]⟩] := by decide
 
 end Pyrtl.C04
